@@ -27,10 +27,12 @@ var c14Queries = []string{
 	`query Q($n: Int) { node { id cost(n: $n) ... on User { name friends { id } } ...F } items { title } } fragment F on Item { owner { name } }`,
 	`{ pet { ... on User { name } ... on Item { title owner { id } } } }`,
 	`{ a: me { id } b: me { id name } }`,
+	`{ a: me { ...U } }  fragment U on User { name friends { id } }`,
+	`{ a: me { ...U } b: me { ...U } c: me { friends { ...U } } }  fragment U on User { name friends { id } }`,
 }
 
 // index pairs (smaller, larger) of c14Queries
-var c14Mono = [][2]int{{0, 1}, {2, 3}}
+var c14Mono = [][2]int{{0, 1}, {2, 3}, {6, 7}}
 
 var (
 	c14Schema *ast.Schema
@@ -68,6 +70,8 @@ var c14SymKeys = [][]string{
 	{"User.cost", "Item.owner", "User.friends"},
 	{"Query.pet", "Item.owner", "Item.title"},
 	{"Query.me", "User.id"},
+	{"Query.me", "User.friends"},
+	{"Query.me", "User.friends"},
 }
 
 func c14NewES(qi int) *c14ES {
